@@ -454,6 +454,8 @@ def call_method(eng, st, bm, args, kwargs, line=0):
 
                 return _Forked(call_by_contract(eng, real, key, clo, [bm.obj] + list(args), dict(kwargs), line))
             return _Forked(eng.call_closure(real, clo, [bm.obj] + list(args), dict(kwargs), line))
+    if isinstance(obj, Cx) and name == "item":
+        return obj
     if V.is_scalar(obj) and name == "item":
         return obj
     if isinstance(obj, Opaque):
